@@ -376,11 +376,17 @@ func ruleNoFlagDropped(w *World, r *RuleResult) {
 			base := fmt.Sprintf("%s -> %s", name, gn)
 			if discardTable[base] == "" {
 				// a helper extracted from a tabled function inherits its entry
+				var owners []string
 				for k := range discardTable {
 					parts := strings.SplitN(k, " -> ", 2)
-					if len(parts) == 2 && parts[1] == gn && w.ownerIn(f, []string{parts[0]}) != "" {
-						base = k
+					if len(parts) == 2 && parts[1] == gn {
+						owners = append(owners, parts[0])
 					}
+				}
+				sort.Strings(owners)
+				// … also a helper that several tabled functions share (and nobody else calls)
+				if o := w.ownerIn(f, owners); o != "" {
+					base = o + " -> " + gn
 				}
 			}
 			if w.isGoErrorCall(call) {
